@@ -28,6 +28,10 @@ ASSUMPTIONS = [
     "TypeError, KeyError, IndexError, AssertionError, AttributeError}",
     "settings registry: ordered pairs of settings dicts from a finite pool (incl. dicts that spell out default values) and "
     "an arbitrary earlier mutation of one field of the registered instance",
+    "live-object histories: a DateDataParser (or configuration) created first, one other call (search_dates with equal "
+    "settings; a parser with another RELATIVE_BASE / permuted DEFAULT_LANGUAGES / equal effective values / a value of "
+    "another type with the same text; a laxer call with the same format; SKIP_TOKENS with the same concatenation; 1100 "
+    "distinct configurations), then the first object is used with symbolic digits, reference times and clock",
     "API histories: two/three calls with symbolic digits around failing parses, differing CACHE_SIZE_LIMIT and "
     "PREFER_LOCALE_DATE_ORDER; whole-API histories beyond these shapes, hash-seed independence and 'caller's dict/list "
     "unmodified' are outside",
@@ -238,6 +242,105 @@ def h_history(shape):
     return fn
 
 
+# ------------------------------------------------------------------------------------------------ live-object histories
+# A DateDataParser (or an earlier configuration) is still alive while OTHER calls are made; then it is used (again).
+# One sequence description drives both the symbolic run and the native replay.
+OLDER = ["search-same-settings", "construct-other-base", "permuted-defaults", "equal-effective-settings",
+         "format-strictness-history", "skip-token-concatenation", "many-settings-then-default", "typed-vs-text-value"]
+_SEARCH_TEXT = "It was signed on March 5 2020 and published 2 days later"
+
+
+def _older_fields(kind):
+    """name -> (lo, hi) of the symbolic decimal fields of the probing call"""
+    return {"search-same-settings": {"n": (0, 99)}, "construct-other-base": {},
+            "permuted-defaults": {"d": (1, 28)}, "equal-effective-settings": {"Y": (1000, 9999), "m": (1, 12), "d": (1, 28)},
+            "format-strictness-history": {"Y": (1000, 9999)}, "skip-token-concatenation": {"Y": (1000, 9999), "d": (1, 28)},
+            "many-settings-then-default": {"n": (0, 99)}, "typed-vs-text-value": {"Y": (1000, 9999), "m": (1, 12), "d": (1, 28)}}[kind]
+
+
+def _older_seq(kind, DDP, search, S, base):
+    """runs the history; returns the DateData (or exception) of the LAST call.  S(parts) builds a string from the probing
+    fields; base(prefix) gives a reference datetime (symbolic or replayed)."""
+    if kind == "search-same-settings":
+        X = {"TIMEZONE": "UTC"}
+        p1 = DDP(languages=["en"], settings=dict(X))
+        search(_SEARCH_TEXT, languages=["en"], settings=dict(X))
+        return p1.get_date_data(S([("n", 2), " days ago"]))
+    if kind == "construct-other-base":
+        X = {"PREFER_MONTH_OF_YEAR": "current", "PREFER_DAY_OF_MONTH": "current"}
+        p1 = DDP(languages=["en"], settings=dict(X, RELATIVE_BASE=base("b")))
+        DDP(languages=["en"], settings=dict(X, RELATIVE_BASE=base("c")))
+        return p1.get_date_data("2015")
+    if kind == "permuted-defaults":
+        p1 = DDP(languages=["ru"], settings={"DEFAULT_LANGUAGES": ["pt", "es"]}, use_given_order=True)
+        DDP(languages=["ru"], settings={"DEFAULT_LANGUAGES": ["es", "pt"]}, use_given_order=True)
+        return p1.get_date_data(S([("d", 2), " abril 2020"]))
+    if kind == "equal-effective-settings":
+        p1 = DDP(languages=["fr"], settings={"DATE_ORDER": "MDY"})
+        DDP(languages=["en"], settings={"PREFER_LOCALE_DATE_ORDER": True}).get_date_data("01/01/2000")
+        return p1.get_date_data(S([("m", 2), "/", ("d", 2), "/", ("Y", 4)]))
+    if kind == "format-strictness-history":
+        DDP(languages=["en"]).get_date_data(S(["March ", ("Y", 4)]), ["%B %Y"])
+        return DDP(languages=["en"], settings={"STRICT_PARSING": True}).get_date_data(S(["March ", ("Y", 4)]), ["%B %Y"])
+    if kind == "skip-token-concatenation":
+        DDP(languages=["en"], settings={"SKIP_TOKENS": ["dela"]}).get_date_data("24 April 2012")
+        return DDP(languages=["en"], settings={"SKIP_TOKENS": ["de", "la"]}).get_date_data(S([("d", 2), " April ", ("Y", 4), " de la"]))
+    if kind == "many-settings-then-default":
+        for i in range(1100):
+            DDP(languages=["en"], settings={"CACHE_SIZE_LIMIT": 2000 + i})
+        search(_SEARCH_TEXT, languages=["en"])
+        return DDP(languages=["en"]).get_date_data(S([("n", 2), " days ago"]))
+    if kind == "typed-vs-text-value":
+        try:
+            DDP(languages=["en"], settings={"CACHE_SIZE_LIMIT": "500", "DATE_ORDER": "DMY"})     # rejected: wrong type
+        except Exception:  # noqa
+            pass
+        return DDP(languages=["en"], settings={"CACHE_SIZE_LIMIT": 500, "DATE_ORDER": "DMY"}).get_date_data(
+            S([("d", 2), "/", ("m", 2), "/", ("Y", 4)]))
+    raise ValueError(kind)
+
+
+def h_older(kind):
+    def fn():
+        n = C.ns()
+        v = {k: C.field(k, lo, hi) for k, (lo, hi) in _older_fields(kind).items()}
+        wit = dict(v)
+        bases = {}
+
+        def base(prefix):
+            if prefix not in bases:
+                bases[prefix] = C.sym_base(prefix, 1900, 2100, with_us=False)
+                wit.update(C.base_witness(bases[prefix], prefix))
+            return bases[prefix]
+        if kind in ("search-same-settings", "many-settings-then-default"):
+            clk = dates.SDateTime._clock()
+            core.assume(mkbool(z3.And(_zi(clk.year) >= 1900, _zi(clk.year) <= 2100)))    # stated bound on the clock
+        dd = _older_seq(kind, n.D.DateDataParser, n.SE.search_dates, lambda parts: tmpl(parts, v), base)
+        do = dd.date_obj
+        if kind == "format-strictness-history":
+            return C.outcome(do is None, wit, "strict")
+        if do is None:
+            return C.outcome(False, wit, "none")
+        if kind in ("search-same-settings", "many-settings-then-default"):
+            clk = dates.SDateTime._clock()
+            ok = z3.And(do._ord() == clk._ord() - _zi(v["n"]), do._us_of_day() == clk._us_of_day())
+        elif kind == "construct-other-base":
+            b = bases["b"]
+            dim = dates.z_dim(z3.IntVal(2015), _zi(b.month))
+            ok = z3.And(
+                _zi(do.year) == 2015, _zi(do.month) == _zi(b.month), _zi(do.day) == z3.If(_zi(b.day) > dim, dim, _zi(b.day)),
+                do._us_of_day() == 0)
+        elif kind == "permuted-defaults":
+            loc = dd.locale
+            ok = z3.And(C.dt_is(do, 2020, 4, v["d"]), z3.BoolVal(getattr(loc, "shortname", loc) == "pt"))
+        elif kind == "skip-token-concatenation":
+            ok = C.dt_is(do, v["Y"], 4, v["d"])
+        else:
+            ok = C.dt_is(do, v["Y"], v["m"], v["d"])
+        return C.outcome(ok, wit, "older")
+    return fn
+
+
 HISTORIES = ["failed-parse-then-default-order", "failed-parse-then-tl", "cache-limit-sequence", "custom-settings-then-default"]
 
 
@@ -254,6 +357,8 @@ def tasks(tier, seed):
     add("settings-registry", "h_registry", {}, 300)
     for h in HISTORIES:
         add("history:%s" % h, "h_history", {"shape": h}, 300)
+    for k in OLDER:
+        add("live-object:%s" % k, "h_older", {"kind": k}, 300)
     return out
 
 
@@ -362,8 +467,44 @@ def native_check(spec):
             bad.append("_mod_settings=%r" % (s3._mod_settings,))
         return {"violates": bool(bad), "detail": "settings %r, then %r, then %r again (mutation %d): wrong fields %r" % (
             d1, d2, d1, w["mutate"], bad)}
-    # API histories
     from dateparser.date import DateDataParser
+    if fn == "h_older":
+        from dateparser.search import search_dates
+        kind = a["kind"]
+        clock = C.clock_from_witness(w)
+        calls = []
+
+        def S(parts):
+            calls.append(render(parts, w))
+            return calls[-1]
+        try:
+            with native.frozen_clock(clock):
+                dd = _older_seq(kind, DateDataParser, search_dates, S,
+                                lambda prefix: _dt.datetime(*C.base_from_witness(w, prefix)))
+        except Exception as e:  # noqa
+            return {"violates": True, "detail": "live-object history %s (strings %r) raised %s: %s" % (kind, calls, type(e).__name__, e)}
+        do = dd.date_obj
+        desc = "live-object history %s (see checks/c03.py:_older_seq; strings %r, clock %r, bases %r) -> %r (locale %s)" % (
+            kind, calls, clock, {p: C.base_from_witness(w, p) for p in ("b", "c") if C.base_from_witness(w, p)}, do,
+            getattr(dd.locale, "shortname", dd.locale))
+        if kind == "format-strictness-history":
+            return {"violates": do is not None, "detail": desc + "; expected None (the string states no day)"}
+        if kind in ("search-same-settings", "many-settings-then-default"):
+            exp = _dt.datetime(*clock) - _dt.timedelta(days=w["n"])
+        elif kind == "construct-other-base":
+            import calendar
+            b = C.base_from_witness(w, "b")
+            exp = _dt.datetime(2015, b[1], min(b[2], calendar.monthrange(2015, b[1])[1]))
+        elif kind == "permuted-defaults":
+            exp = _dt.datetime(2020, 4, w["d"])
+            if do == exp and getattr(dd.locale, "shortname", dd.locale) != "pt":
+                return {"violates": True, "detail": desc + "; expected locale pt (first of the given DEFAULT_LANGUAGES)"}
+        elif kind == "skip-token-concatenation":
+            exp = _dt.datetime(w["Y"], 4, w["d"])
+        else:
+            exp = _dt.datetime(w["Y"], w["m"], w["d"])
+        return {"violates": do != exp, "detail": desc + "; expected %r" % (exp,)}
+    # API histories
 
     def api(s, languages, settings=None):
         return DateDataParser(languages=languages, settings=settings).get_date_data(s)
